@@ -11,4 +11,4 @@ for d in seeded/*/; do
 done
 git -C /repo status --short
 # leave coq/Gen as generated from /repo itself (a run against a changed tree may have left a refusal stub behind)
-python3 tools/py2coq/gen.py /repo coq/Gen Murmur3 KeyCheck Rendezvous CallSites Handlers Wrappers PoolLocks Subscripts Aliases >/dev/null
+python3 tools/py2coq/gen.py /repo coq/Gen Murmur3 KeyCheck Rendezvous CallSites Handlers Wrappers PoolLocks Subscripts Aliases Fallback >/dev/null
